@@ -41,6 +41,7 @@ class Vocab:
             self.by_dims.setdefault(w[4], []).append(w)
         self.plain_words = [w for w in self.words if not w[6]]
         self.affine_words = [w for w in self.words if w[6] and w[0] == ""]
+        self.affine_prefixed = [w for w in self.words if w[6] and w[0] != ""]
 
 
 class QNum(G.Lit):
